@@ -1093,6 +1093,55 @@ def evaluate_detail(d) -> Tuple[Any, Any]:
         return f"<{e}>", None
 
 
+def cmp_twin_log(d) -> List[Any]:
+    """Recorded defect behaviour of finding C03-f, as a twin of the evaluator on the shared-comparison shapes: the comparison
+    c = x.a > t is ONE node; its first occurrence in a row computes the value and stores `not value` in the node's flag, its
+    second occurrence in the same row (Comparator._evaluate__, branch `if self._id_ in sources`) answers with the flag -- which
+    another evaluation sharing the node may have overwritten while this one was suspended at a row."""
+    amap = dict((i, a) for i, a in d["A"])
+    xs = _dedup(d["W"][0])
+    ys = _dedup(d["W"][1]) if len(d["W"]) > 1 else xs
+    flags: Dict[int, bool] = {}
+
+    def gen(shape):
+        name, t = shape[0], shape[1]
+        for x in xs:
+            v = amap.get(x, 0) > t
+            flags[t] = not v
+            if name == "cmp_plain":
+                if v:
+                    yield [x]
+            elif name == "cmp_not":
+                if not v:
+                    yield [x]
+            elif name == "cmp_twice1":
+                if v and amap.get(x, 0) >= 0 and not flags[t]:
+                    yield [x]
+            else:
+                if not v:
+                    continue
+                for y in ys:
+                    if amap.get(y, 0) >= 0 and not flags[t]:
+                        yield [x, y]
+
+    if d.get("warm"):
+        for qi in sorted(set(d["its"])):
+            for _ in gen(d["shapes"][qi]):
+                pass
+    its = [gen(d["shapes"][qi]) for qi in d["its"]]
+    log: List[Any] = []
+    for o in d["ops"]:
+        if o[0] == "X":
+            its[o[1]].close()
+            log.append(MARK)
+            continue
+        try:
+            log.append(next(its[o[1]]))
+        except StopIteration:
+            log.append(STOP)
+    return log
+
+
 def extra_verdict(d, impl) -> Tuple[str, Any]:
     """-> ('ok' | 'known:<classes>' | 'violation', expected log).  Shapes outside the modelled fragment: the match with a
     known-finding class is INEXACT (no model predicts the wrong output), it is a signature per iterator:
@@ -1113,6 +1162,9 @@ def extra_verdict(d, impl) -> Tuple[str, Any]:
                 return "violation", exp
     if log == exp:
         return "ok", exp
+    if all(sh[0] in CMP_SHAPES for sh in d["shapes"]):
+        # finding C03-f (K_shared_cmp_replay): exact match with the recorded defect behaviour, nothing else
+        return ("known:K_shared_cmp_replay" if log == cmp_twin_log(d) else "violation"), exp
     n = len(d["its"])
     got: Dict[int, list] = {i: [] for i in range(n)}
     want: Dict[int, list] = {i: [] for i in range(n)}
@@ -1182,6 +1234,8 @@ def run(tier: str, seed: int, replay=None) -> int:
                 "complete evaluation, then every word over two further iterators of the same object / a shared variable (length <=6/9); "
                 "rsched: iterators of query objects with rule queries -- every word over {next0,next1} up to length 7/10 for one rule object twice, "
                 "two rule objects, rule + plain query, two different rules; abandonment at every point; seeded random objects/iterators; "
+                "extra-shared-comparison: ONE comparison object used twice in a query (with and without a join in between) and shared with a "
+                "second query (negated / plain) or evaluated twice, all interleavings up to length 6/8, cold and after warm-up; "
                 "extend: a rule query evaluated, then extended by a refinement / alternative / next_rule, then evaluated three more times, vs fresh "
                 "queries; sharedattr: one Attribute node used as a bare condition in one query and as a comparison operand in another, every "
                 "order of evaluations; extra: or_/not_/truthiness/rule shapes and exists/for_all/not_(exists) shapes vs the isolated result of a fresh query, incl. for "
@@ -1260,7 +1314,8 @@ def run(tier: str, seed: int, replay=None) -> int:
             if verdict == "ok":
                 continue
             if verdict.startswith("known:"):
-                lab = verdict[6:] + (" (extra, inexact)" if kind == "extra" else " (predicted exactly by the class rule)")
+                lab = verdict[6:] + (" (extra, inexact)" if kind == "extra" and "K_shared_cmp_replay" not in verdict
+                                     else " (predicted exactly by the class rule)")
                 known_counts[lab] = known_counts.get(lab, 0) + 1
                 continue
             bad.append((d, impl, f"{kind} shape: differs from the isolated result and is not explained by a listed class; expected {exp}"))
